@@ -26,7 +26,7 @@ OHandle = TOpt(Handle)
 Opaque = TU("Opaque")  # encodings, csv kwargs, paths, file descriptors
 PRIMARY, TEMP = z3.Const("handle_primary", sort_of(Handle)), z3.Const("handle_temp", sort_of(Handle))
 CSV = TObj("CSVStorage")
-GHOST = dict(disk=LItem, wbuf=LItem, h_open=TBool, at_start=TBool, at_end=TBool, t_at_end=TBool, tdisk=LItem, twbuf=LItem, t_open=TBool, t_exists=TBool, t_same_format=TBool,
+GHOST = dict(disk=LItem, wbuf=LItem, h_open=TBool, at_start=TBool, at_end=TBool, t_at_end=TBool, tdisk=LItem, twbuf=LItem, t_open=TBool, t_exists=TBool, t_same_format=TBool, h_same_format=TBool,
              staged=LItem, staged_exists=TBool, io=TInt, reads=TInt, faulted=TBool)
 register_class("CSVStorage", "tinyflux.storages", dict(
     _mode=TStr, _flush_on_insert=TBool, _encoding=Opaque, _newline=Opaque, kwargs=Opaque, _path=Opaque, _handle=Handle, _temp_handle=OHandle, _initially_empty=TBool,
@@ -244,8 +244,23 @@ Exec.b_sum = _b_sum
 
 
 def _open(ex, node, st):
+    # the handle speaks the storage's format only if it is opened on the storage's own path with its own mode, encoding and newline
+    me = _self(st).t
+    kws = {k.arg: k.value for k in node.keywords}
+    same = []
+    args = list(node.args)
+    pathv = ex.eval(args[0], st) if args else (ex.eval(kws["file"], st) if "file" in kws else None)
+    same.append(z3.BoolVal(pathv is not None and pathv.ty == Opaque and pathv.t.eq(me["_path"].t)))
+    for kw, fld in (("mode", "_mode"), ("encoding", "_encoding"), ("newline", "_newline")):
+        if kw in kws:
+            v = ex.eval(kws[kw], st)
+            same.append(v.t == me[fld].t if v.ty == me[fld].ty else z3.BoolVal(False))
+        else:
+            same.append(z3.BoolVal(False))
+    fmt = z3.And(*same)
+
     def eff(st_):
-        _set(st_, h_open=z3.BoolVal(True), wbuf=empty_items(ex), at_start=z3.BoolVal(True), at_end=l_len(_self(st_).t["disk"].t) == 0)
+        _set(st_, h_open=z3.BoolVal(True), h_same_format=fmt, wbuf=empty_items(ex), at_start=z3.BoolVal(True), at_end=l_len(_self(st_).t["disk"].t) == 0)
     io_call(ex, st, node, "open", eff)
     return Val(Handle, PRIMARY)
 
